@@ -7,6 +7,7 @@ from vlib import circ, circgen, refsem, symeval
 from checks import mutators
 from checks.common import REPLAY_PRELUDE
 
+HASH_SEEDS = {"quick": (1,), "thorough": (1, 2, 3)}  # also run (quick size) under these PYTHONHASHSEEDs
 LEVEL = "translation_validation"
 TECHNIQUE = "translation validation: z3 equivalence of real-evaluator terms before/after rename / replace_inputs (cofactor) / replace_subcircuit, plus reference predicates"
 USES_STUBS = True
